@@ -189,17 +189,23 @@ type recHandler struct {
 	called bool
 	err    error
 	log    []handled // every call that returned (a panicking call does not return)
+	lookup func(ctx context.Context, claim types.EthereumClaim) []txo
 }
 
 type handled struct {
 	claim types.EthereumClaim
 	err   error
+	txs   []txo // executed-batch claim: the transfers of the batch as the handler found it
 }
 
 func (r *recHandler) Handle(ctx context.Context, att types.Attestation, claim types.EthereumClaim) error {
 	r.called = true
+	var txs []txo
+	if r.lookup != nil {
+		txs = r.lookup(ctx, claim)
+	}
 	r.err = r.inner.Handle(ctx, att, claim)
-	r.log = append(r.log, handled{claim, r.err})
+	r.log = append(r.log, handled{claim, r.err, txs})
 	return r.err
 }
 
@@ -298,6 +304,21 @@ func setup(t *testing.T, cfg config) *env {
 	e.k = keeper.VerifC01WithCollaborators(in.SkywayKeeper, bankProxy{in.BankKeeper, e.f}, evmProxy{in.SkywayKeeper.EVMKeeper, e.f})
 	setUnexported(&e.k, "tokenFactoryKeeper", types.TokenFactoryKeeper(tfStub{admin: e.users[0].String()}))
 	e.rec = &recHandler{inner: e.k.AttestationHandler}
+	e.rec.lookup = func(ctx context.Context, claim types.EthereumClaim) []txo {
+		cl, ok := claim.(*types.MsgBatchSendToRemoteClaim)
+		if !ok || cidx(cl.TokenContract) < 0 {
+			return nil
+		}
+		b, err := in.SkywayKeeper.GetOutgoingTXBatch(ctx, contractAddr(cidx(cl.TokenContract)), cl.BatchNonce)
+		if err != nil || b == nil {
+			return nil
+		}
+		var out []txo
+		for _, t := range b.Transactions {
+			out = append(out, e.mkTx(t))
+		}
+		return out
+	}
 	e.k.AttestationHandler = e.rec
 	e.ms = keeper.NewMsgServerImpl(e.k)
 	e.gov = keeper.NewSkywayProposalHandler(e.k)
@@ -1153,7 +1174,11 @@ func (h *hist) stateOracle(o opSpec, where string, after snap, denomOf func(c, k
 		if d >= 0 {
 			pendT[d].Add(pendT[d], new(big.Int).Add(t.amount, t.tax))
 		}
-		if ld, f := h.accD[t.id]; f {
+		ld, f := h.accD[t.id]
+		if !f && d >= 0 {
+			pend[d].Add(pend[d], new(big.Int).Add(t.amount, t.tax)) // accepted on this (probe) branch only
+		}
+		if f {
 			pend[ld].Add(pend[ld], new(big.Int).Add(t.amount, t.tax))
 			if d != ld {
 				id := "C01:pending-transfer-denom-changed"
@@ -1182,6 +1207,9 @@ func (h *hist) stateOracle(o opSpec, where string, after snap, denomOf func(c, k
 		if after.escrow[d].Cmp(pendT[d]) != 0 {
 			h.violate("C01:escrow-ne-pending", fmt.Sprintf("after %s: escrow of %s is %s but pending transfers sum to %s", where, denoms[d], after.escrow[d], pendT[d]))
 		}
+		if after.escrow[d].Cmp(pend[d]) != 0 {
+			h.violate("C01:escrow-ne-pending", fmt.Sprintf("after %s: escrow of %s is %s but the pending transfers that locked %s sum to %s", where, denoms[d], after.escrow[d], denoms[d], pend[d]))
+		}
 	}
 	// the pool is in store order: descending (contract, amount, id) — the order batches are filled in
 	for i := 1; i < len(after.pool); i++ {
@@ -1203,13 +1231,11 @@ func (h *hist) oracle(o opSpec, ok, atomicKind bool, before, after snap, log []h
 		}
 		return nil
 	}
-	burnBatch := func(k int, nonce uint64) {
-		if b := findBatch(before, k, nonce); b != nil {
-			for _, t := range b.txs {
-				h.burned[t.id] = true
-				if d, f := h.accD[t.id]; f {
-					h.exe[d].Add(h.exe[d], new(big.Int).Add(t.amount, t.tax))
-				}
+	burnTxs := func(txs []txo) {
+		for _, t := range txs {
+			h.burned[t.id] = true
+			if d, f := h.accD[t.id]; f {
+				h.exe[d].Add(h.exe[d], new(big.Int).Add(t.amount, t.tax))
 			}
 		}
 	}
@@ -1252,7 +1278,9 @@ func (h *hist) oracle(o opSpec, ok, atomicKind bool, before, after snap, log []h
 				}
 			}
 		case "executed":
-			burnBatch(o.K, o.Nonce)
+			if b := findBatch(before, o.K, o.Nonce); b != nil {
+				burnTxs(b.txs)
+			}
 		case "deposit":
 			if d := e.denomOf(e.root, o.C, o.K); d >= 0 {
 				amt, _ := new(big.Int).SetString(o.Amt, 10)
@@ -1268,7 +1296,8 @@ func (h *hist) oracle(o opSpec, ok, atomicKind bool, before, after snap, log []h
 			}
 			switch cl := hd.claim.(type) {
 			case *types.MsgBatchSendToRemoteClaim:
-				burnBatch(cidx(cl.TokenContract), cl.BatchNonce)
+				burnTxs(hd.txs) // the batch as the handler found it (it may have been built earlier in this very block)
+				_ = cl
 				h.run.Count("endblocker-handler-applied", "executed")
 			case *types.MsgSendToPalomaClaim:
 				if d := e.denomOf(e.root, idx(chains, cl.ChainReferenceId), cidx(cl.TokenContract)); d >= 0 {
